@@ -13,7 +13,7 @@ meta = {
     "breaks": needs.split('||')[0],
     "needs_to_manifest": needs.split('||')[1] if '||' in needs else needs,
     "confirmed": "tools/seedverify.sh in a scratch worktree: (a) existing tests of the touched packages pass with the change, (b) the demonstration fails with it, (c) passes without it",
-    "checks_run": "tools/seedrun.sh (git -C /repo apply patch.diff; bin/vcheck <id> quick; git -C /repo checkout -- .)",
+    "checks_run": "tools/seedrun.sh (the change applied to a scratch copy of /repo's working tree, VERIF_REPO; bin/vcheck <id> quick)",
     "detected_by": [] if det == 'none' else det.split(','),
 }
 json.dump(meta, open(os.path.join(dst, 'meta.json'), 'w'), indent=1)
